@@ -18,53 +18,7 @@ impl<const N: usize> Machine for Tr<N> {
     fn apply(&mut self, op: &(u8, u8), hist: &[(u8, u8)], sink: &mut Sink) {
         self.real.add(op.0, op.1);
         self.pairs.push((op.0 as usize, op.1 as usize));
-        let want = closure(N, &self.pairs, true, false);
-        let mentioned: Vec<bool> = (0..N).map(|i| want[i][i]).collect();
-        let mut bad = |what: &str, detail: String, sink: &mut Sink| {
-            sink.violate(format!("C18|TrRelUnionFind|{}", what), format!("TrRelUnionFind after adds {:?}: {}", hist, detail),
-                json!({"structure": "TrRelUnionFind", "history": format!("{:?}", hist), "query": what}));
-        };
-        // contains for all pairs
-        for x in 0..N { for y in 0..N {
-            sink.queries += 1;
-            let got = self.real.contains(&(x as u8), &(y as u8));
-            if got != want[x][y] { bad("contains", format!("contains({},{}) = {}, closure says {}", x, y, got, want[x][y]), sink); }
-        } }
-        // iter_all
-        let all: Vec<(u8, u8)> = self.real.iter_all().map(|(a, b)| (*a, *b)).collect();
-        let all_set: BTreeSet<(u8, u8)> = all.iter().cloned().collect();
-        let want_set: BTreeSet<(u8, u8)> = (0..N).flat_map(|x| (0..N).map(move |y| (x, y))).filter(|&(x, y)| want[x][y]).map(|(x, y)| (x as u8, y as u8)).collect();
-        sink.queries += 1;
-        if all_set != want_set { bad("iter_all", format!("iter_all = {:?}, closure = {:?}", all_set, want_set), sink); }
-        if all.len() != all_set.len() { bad("iter_all-duplicates", format!("iter_all yields {} pairs, {} distinct", all.len(), all_set.len()), sink); }
-        // count_exact
-        sink.queries += 1;
-        let c = self.real.count_exact();
-        if c != want_set.len() { bad("count_exact", format!("count_exact = {}, closure has {} pairs", c, want_set.len()), sink); }
-        // set_of / rev_set_of
-        for x in 0..N {
-            sink.queries += 2;
-            let so: Option<Vec<u8>> = self.real.set_of(&(x as u8)).map(|i| i.cloned().collect());
-            let rso: Option<Vec<u8>> = self.real.rev_set_of(&(x as u8)).map(|i| i.cloned().collect());
-            if !mentioned[x] {
-                if so.is_some() || rso.is_some() { bad("set_of-unmentioned", format!("set_of/rev_set_of({}) is Some for an element never added", x), sink); }
-                continue;
-            }
-            let ws: BTreeSet<u8> = (0..N).filter(|&y| want[x][y]).map(|y| y as u8).collect();
-            let wr: BTreeSet<u8> = (0..N).filter(|&y| want[y][x]).map(|y| y as u8).collect();
-            match so { None => bad("set_of", format!("set_of({}) = None for a mentioned element", x), sink),
-                Some(v) => { let s: BTreeSet<u8> = v.iter().cloned().collect();
-                    if s != ws { bad("set_of", format!("set_of({}) = {:?}, closure says {:?}", x, s, ws), sink); }
-                    if s.len() != v.len() { bad("set_of-duplicates", format!("set_of({}) yields duplicates: {:?}", x, v), sink); } } }
-            match rso { None => bad("rev_set_of", format!("rev_set_of({}) = None for a mentioned element", x), sink),
-                Some(v) => { let s: BTreeSet<u8> = v.iter().cloned().collect();
-                    if s != wr { bad("rev_set_of", format!("rev_set_of({}) = {:?}, closure says {:?}", x, s, wr), sink); }
-                    if s.len() != v.len() { bad("rev_set_of-duplicates", format!("rev_set_of({}) yields duplicates: {:?}", x, v), sink); } } }
-        }
-        if self.real.is_empty() { bad("is_empty", "is_empty() after an add".into(), sink); }
-        // the structure's own invariants (panic on failure; caught by the explorer)
-        self.real.assert_disjoint_invariant();
-        self.real.assert_set_connections_dominant_sets();
+        tr_check::<N>(&self.real, &self.pairs, &format!("{:?}", hist), sink);
     }
     fn outcome(&self) -> String {
         let w = closure(N, &self.pairs, true, false);
@@ -80,6 +34,103 @@ impl<const N: usize> Machine for Tr<N> {
         }
         false
     }
+}
+
+/// every public query of the real structure against the reference closure of the pairs added so far
+fn tr_check<const N: usize>(real: &TrRelUnionFind<u8>, pairs: &[(usize, usize)], hist: &str, sink: &mut Sink) {
+    {
+        let this = TrView { real, pairs };
+        let self_ = &this;
+        let want = closure(N, self_.pairs, true, false);
+        let mentioned: Vec<bool> = (0..N).map(|i| want[i][i]).collect();
+        let mut bad = |what: &str, detail: String, sink: &mut Sink| {
+            sink.violate(format!("C18|TrRelUnionFind|{}", what), format!("TrRelUnionFind after adds {}: {}", hist, detail),
+                json!({"structure": "TrRelUnionFind", "history": hist.to_string(), "query": what}));
+        };
+        // contains for all pairs
+        for x in 0..N { for y in 0..N {
+            sink.queries += 1;
+            let got = self_.real.contains(&(x as u8), &(y as u8));
+            if got != want[x][y] { bad("contains", format!("contains({},{}) = {}, closure says {}", x, y, got, want[x][y]), sink); }
+        } }
+        // iter_all
+        let all: Vec<(u8, u8)> = self_.real.iter_all().map(|(a, b)| (*a, *b)).collect();
+        let all_set: BTreeSet<(u8, u8)> = all.iter().cloned().collect();
+        let want_set: BTreeSet<(u8, u8)> = (0..N).flat_map(|x| (0..N).map(move |y| (x, y))).filter(|&(x, y)| want[x][y]).map(|(x, y)| (x as u8, y as u8)).collect();
+        sink.queries += 1;
+        if all_set != want_set { bad("iter_all", format!("iter_all = {:?}, closure = {:?}", all_set, want_set), sink); }
+        if all.len() != all_set.len() { bad("iter_all-duplicates", format!("iter_all yields {} pairs, {} distinct", all.len(), all_set.len()), sink); }
+        // count_exact
+        sink.queries += 1;
+        let c = self_.real.count_exact();
+        if c != want_set.len() { bad("count_exact", format!("count_exact = {}, closure has {} pairs", c, want_set.len()), sink); }
+        // set_of / rev_set_of
+        for x in 0..N {
+            sink.queries += 2;
+            let so: Option<Vec<u8>> = self_.real.set_of(&(x as u8)).map(|i| i.cloned().collect());
+            let rso: Option<Vec<u8>> = self_.real.rev_set_of(&(x as u8)).map(|i| i.cloned().collect());
+            if !mentioned[x] {
+                if so.is_some() || rso.is_some() { bad("set_of-unmentioned", format!("set_of/rev_set_of({}) is Some for an element never added", x), sink); }
+                continue;
+            }
+            let ws: BTreeSet<u8> = (0..N).filter(|&y| want[x][y]).map(|y| y as u8).collect();
+            let wr: BTreeSet<u8> = (0..N).filter(|&y| want[y][x]).map(|y| y as u8).collect();
+            match so { None => bad("set_of", format!("set_of({}) = None for a mentioned element", x), sink),
+                Some(v) => { let s: BTreeSet<u8> = v.iter().cloned().collect();
+                    if s != ws { bad("set_of", format!("set_of({}) = {:?}, closure says {:?}", x, s, ws), sink); }
+                    if s.len() != v.len() { bad("set_of-duplicates", format!("set_of({}) yields duplicates: {:?}", x, v), sink); } } }
+            match rso { None => bad("rev_set_of", format!("rev_set_of({}) = None for a mentioned element", x), sink),
+                Some(v) => { let s: BTreeSet<u8> = v.iter().cloned().collect();
+                    if s != wr { bad("rev_set_of", format!("rev_set_of({}) = {:?}, closure says {:?}", x, s, wr), sink); }
+                    if s.len() != v.len() { bad("rev_set_of-duplicates", format!("rev_set_of({}) yields duplicates: {:?}", x, v), sink); } } }
+        }
+        if self_.real.is_empty() { bad("is_empty", "is_empty() after an add".into(), sink); }
+        // the structure's own invariants (panic on failure; caught by the explorer)
+        self_.real.assert_disjoint_invariant();
+        self_.real.assert_set_connections_dominant_sets();
+    }
+}
+
+struct TrView<'a> { real: &'a TrRelUnionFind<u8>, pairs: &'a [(usize, usize)] }
+
+// ---------------------------------------------------------------- TrRelUnionFind from non-initial states: collapse chains
+/// Histories `round^r ; add^s`: round i merges element i+1 into the one class built so far by a pair of adds
+/// (four variants: through the newest member or through element 0, forward edge first or back edge first), which
+/// nests class collapses r deep; then every sequence of s adds over all elements incl. never-mentioned ones.
+#[derive(Clone, Debug, PartialEq)]
+enum ChainOp { Round(u8), Add(u8, u8) }
+struct TrChain<const N: usize, const R: usize, const S: usize> { real: TrRelUnionFind<u8>, pairs: Vec<(usize, usize)>, rounds: usize, suffix: usize }
+impl<const N: usize, const R: usize, const S: usize> Machine for TrChain<N, R, S> {
+    type Op = ChainOp;
+    fn new() -> Self { TrChain { real: Default::default(), pairs: vec![], rounds: 0, suffix: 0 } }
+    fn fork(&self, _h: &[ChainOp]) -> Self { TrChain { real: self.real.clone(), pairs: self.pairs.clone(), rounds: self.rounds, suffix: self.suffix } }
+    fn enabled(&self, op: &ChainOp) -> bool {
+        match op {
+            // (for the first round the variants through element 0 coincide with the ones through the newest member)
+            ChainOp::Round(v) => self.suffix == 0 && self.rounds < R && (self.rounds > 0 || *v < 2),
+            ChainOp::Add(_, _) => self.suffix < S,
+        }
+    }
+    fn apply(&mut self, op: &ChainOp, hist: &[ChainOp], sink: &mut Sink) {
+        let adds: Vec<(u8, u8)> = match *op {
+            ChainOp::Round(v) => {
+                let e = (self.rounds + 1) as u8;
+                self.rounds += 1;
+                match v { 0 => vec![(e - 1, e), (e, e - 1)], 1 => vec![(e, e - 1), (e - 1, e)], 2 => vec![(0, e), (e, 0)], _ => vec![(e, 0), (0, e)] }
+            }
+            ChainOp::Add(a, b) => { self.suffix += 1; vec![(a, b)] }
+        };
+        for (a, b) in adds {
+            self.real.add(a, b);
+            self.pairs.push((a as usize, b as usize));
+            tr_check::<N>(&self.real, &self.pairs, &format!("{:?} = adds {:?}", hist, self.pairs), sink);
+        }
+    }
+    fn outcome(&self) -> String {
+        let w = closure(N, &self.pairs, true, false);
+        w.iter().map(|r| r.iter().map(|b| if *b { '1' } else { '0' }).collect::<String>()).collect::<Vec<_>>().join("/")
+    }
+    fn nontrivial(h: &[ChainOp]) -> bool { h.iter().filter(|o| matches!(o, ChainOp::Round(_))).count() >= 2 && matches!(h.last(), Some(ChainOp::Add(_, _))) }
 }
 
 // ---------------------------------------------------------------- UnionFind (uf.rs)
@@ -168,6 +219,14 @@ fn main() {
         explore::<Tr<4>>("C18|TrRelUnionFind", &ops, if thorough { 7 } else { 6 }, &mut rep);
         let ops5: Vec<(u8, u8)> = (0..5u8).flat_map(|a| (0..5u8).map(move |b| (a, b))).collect();
         explore::<Tr<5>>("C18|TrRelUnionFind[5 elems]", &ops5, if thorough { 5 } else { 4 }, &mut rep);
+        // non-initial states: nested class collapses, then every add (thorough: every pair of adds after <= 5 rounds)
+        fn chain_ops(n: u8) -> Vec<ChainOp> { let mut v: Vec<ChainOp> = (0..4).map(ChainOp::Round).collect(); for a in 0..n { for b in 0..n { v.push(ChainOp::Add(a, b)); } } v }
+        if thorough {
+            explore::<TrChain<10, 8, 1>>("C18|TrRelUnionFind[collapse chains]", &chain_ops(10), 9, &mut rep);
+            explore::<TrChain<7, 5, 2>>("C18|TrRelUnionFind[collapse chains, two adds]", &chain_ops(7), 7, &mut rep);
+        } else {
+            explore::<TrChain<9, 7, 1>>("C18|TrRelUnionFind[collapse chains]", &chain_ops(9), 8, &mut rep);
+        }
     }
     if want("UnionFind") {
         let mut ops: Vec<UfOp> = vec![];
@@ -183,7 +242,7 @@ fn main() {
         ops.push(UfOp::UnionAdd(1, 3));
         explore::<Uf>("C18|UnionFind[ids]", &ops, if thorough { 6 } else { 5 }, &mut rep);
     }
-    rep.rule = "every operation sequence up to the depth bound over 4 elements is one history; after every operation every public query is compared with the reference closure / partition; non-trivial = history with a back edge (TrRelUnionFind) or >= 2 proper unions".into();
+    rep.rule = "every operation sequence up to the depth bound over 4 elements is one history (plus the collapse-chain family: r <= 7 nested class collapses in each of 4 orders, then every add over 9 elements); after every operation every public query is compared with the reference closure / partition; non-trivial = history with a back edge (TrRelUnionFind) or >= 2 proper unions".into();
     let code = rep.finish(start);
     std::process::exit(code);
 }
